@@ -81,7 +81,9 @@ Clauses(S, o) ==
 Verdict(r) ==
   \* a public view that disagrees with the tables it is a view of (members, memberships, ids, counts)
   IF r.viewanom # <<>> THEN <<"C06:" \o r.viewanom[1]>> ELSE
-  IF r.postanom # <<>> THEN <<"tainted">> ELSE
+  \* the tables hold something no call put there (a label of the caller's own container, a view that cannot
+  \* be projected): the harness reached this state through public calls only, so it is a finding here too
+  IF r.postanom # <<>> THEN <<"C06:state-holds-what-no-call-put-there." \o r.postanom[1]>> ELSE
   \* an accessor of a view / statistic raised: reported as such (its placeholder value is not compared)
   IF r.obs.errs # <<>> THEN <<"C06:raised." \o r.obs.errs[1]>> ELSE
   LET S == FromJ(r.post) IN
